@@ -499,9 +499,10 @@ I_HintSet(p) ==
 (* (Bucket.close starts with flush(-1)) or the goroutine spawned by a      *)
 (* rotation (chunk = the file just left).                                  *)
 
-FlushProcs == {"flusher", "closer"} \cup RotProcs
+FlushProcs == {"flusher", "closer", "gc"} \cup RotProcs
 \* where a flusher goes when flush() returns
-AfterFlush(f) == IF f # "closer" THEN "idle" ELSE IF loc[f].last THEN "cl_ctab" ELSE "cl_pick"
+AfterFlush(f) == IF f = "gc" THEN "g_fpick"
+                 ELSE IF f # "closer" THEN "idle" ELSE IF loc[f].last THEN "cl_ctab" ELSE "cl_pick"
 RotChunk(f) == CHOOSE c \in Chunks : RotName(c) = f
 
 F_Start(f) ==     \* the environment calls flushdatas(true)
@@ -515,7 +516,8 @@ F_Enter(f) ==
   /\ f \in FlushProcs /\ pc[f] \in {"f_enter", "spawned"}
   /\ LET l == IF pc[f] = "spawned" THEN [arg |-> RotChunk(f), chunk |-> -1, n |-> 0, last |-> TRUE] ELSE loc[f] IN
      /\ loc' = [loc EXCEPT ![f] = l]
-     /\ SetPc(f, IF TotalWbuf THEN "f_lock" ELSE IF f = "closer" THEN (IF l.last THEN "cl_ctab" ELSE "cl_pick") ELSE "idle")
+     /\ SetPc(f, IF TotalWbuf THEN "f_lock" ELSE IF f = "gc" THEN "g_fpick"
+                  ELSE IF f = "closer" THEN (IF l.last THEN "cl_ctab" ELSE "cl_pick") ELSE "idle")
   /\ UNCHANGED <<conf, up, head, chk, tree, hm, ctab, bk, gc, lock, disk, recs, ref, gh>>
 
 \* flushLock, re-check under ds.Lock, resolve -1 to the current head, open (create) the file
@@ -718,8 +720,21 @@ G_Start(b, e, merge) ==
 G_Register ==
   /\ pc["gc"] = "g_register"
   /\ gc' = [gc EXCEPT !.reg = TRUE]
-  /\ SetPc("gc", "g_before")
+  /\ SetPc("gc", "g_fpick")
   /\ UNCHANGED <<chk, tree, hm, ctab, bk, loc, disk>> /\ GCUnch
+
+\* Repaired (finding F15): dataStore.flushBuffered before the pass touches any file -- records still
+\* buffered for a file of the range (a just rotated file whose flush goroutine has not run yet) are
+\* written first.  Mutant "F15" = the old code, which collected such a file from its on-disk content only
+\* and dropped the buffer with Clear().
+G_FPick ==
+  /\ pc["gc"] = "g_fpick"
+  /\ LET S == {c \in 0..head : Len(chk[c].wbuf) > 0} IN
+     IF S = {} \/ Mut("F15")
+       THEN SetPc("gc", "g_before") /\ loc' = loc
+       ELSE /\ loc' = [loc EXCEPT !["gc"] = [arg |-> MinOf(S, 0), chunk |-> -1, n |-> 0, last |-> FALSE]]
+            /\ SetPc("gc", "f_enter")
+  /\ UNCHANGED <<chk, tree, hm, ctab, bk, gc, disk>> /\ GCUnch
 
 \* BeforeBucket (merge off): drop the merged hint, remove every tree dump               (FS)
 G_Before ==
@@ -749,7 +764,7 @@ G_Src ==
        THEN gc' = [gc EXCEPT !.src = @ + 1] /\ UNCHANGED <<pc, hm, disk>>
      ELSE /\ hm' = [hm EXCEPT !.splits[gc.src] = <<FreshSplit>>, !.lastTS[gc.src] = FALSE]
           /\ disk' = [disk EXCEPT !.hintf[gc.src] = <<>>]
-          /\ gc' = [gc EXCEPT !.cur = 0]
+          /\ gc' = [gc EXCEPT !.cur = 0, !.oldpos = <<-1, -1>>, !.rid = 0]
           /\ SetPc("gc", "g_next")
   /\ UNCHANGED <<chk, tree, ctab, bk, loc>> /\ GCUnch
 
@@ -808,15 +823,22 @@ G_Copy ==
   /\ SetPc("gc", IF gc.found THEN "g_repget" ELSE "g_hint")
   /\ UNCHANGED <<tree, hm, ctab, bk, loc>> /\ GCUnch
 
-\* UpdateHtreePos is a get followed by a set -- two critical sections, as in the code
+\* UpdateHtreePos.  Repaired (finding F4): HTree.updatePos moves the slot atomically and only if it
+\* still points at the record just relocated.  Mutant "F4" = the old code: a get followed by a set
+\* (two critical sections) that wrote the possibly stale version back unconditionally.
 G_RepointGet ==
   /\ pc["gc"] = "g_repget"
-  /\ LET sl == tree[HashOf(recs[gc.rid].key)] IN
-     IF sl = NoSlot THEN SetPc("gc", "g_hint") /\ gc' = gc
-     ELSE SetPc("gc", "g_repset") /\ gc' = [gc EXCEPT !.meta = [@ EXCEPT !.c = sl.ver, !.off = sl.vh]]
-  /\ UNCHANGED <<chk, tree, hm, ctab, bk, loc, disk>> /\ GCUnch
+  /\ LET h == HashOf(recs[gc.rid].key) sl == tree[h] IN
+     IF Mut("F4")
+       THEN /\ tree' = tree
+            /\ IF sl = NoSlot THEN SetPc("gc", "g_hint") /\ gc' = gc
+               ELSE SetPc("gc", "g_repset") /\ gc' = [gc EXCEPT !.meta = [@ EXCEPT !.c = sl.ver, !.off = sl.vh]]
+       ELSE /\ tree' = IF sl # NoSlot /\ <<sl.c, sl.off>> = gc.oldpos
+                         THEN [tree EXCEPT ![h] = [sl EXCEPT !.c = gc.dst, !.off = gc.newoff]] ELSE tree
+            /\ SetPc("gc", "g_hint") /\ gc' = gc
+  /\ UNCHANGED <<chk, hm, ctab, bk, loc, disk>> /\ GCUnch
 
-G_RepointSet ==
+G_RepointSet ==      \* only reachable under mutant "F4"
   /\ pc["gc"] = "g_repset"
   /\ tree' = [tree EXCEPT ![HashOf(recs[gc.rid].key)] =
                  [c |-> gc.dst, off |-> gc.newoff, ver |-> gc.meta.c, vh |-> gc.meta.off]]
@@ -881,7 +903,7 @@ G_End ==
 G_Cancel == /\ gc.reg /\ ~gc.cancel /\ gc' = [gc EXCEPT !.cancel = TRUE]
             /\ UNCHANGED <<chk, tree, hm, ctab, bk, loc, disk, pc>> /\ GCUnch
 
-GCStep == G_Register \/ G_Before \/ G_Dst \/ G_Src \/ G_Next \/ G_DstSwitch \/ G_Copy
+GCStep == G_Register \/ G_FPick \/ G_Before \/ G_Dst \/ G_Src \/ G_Next \/ G_DstSwitch \/ G_Copy
           \/ G_RepointGet \/ G_RepointSet \/ G_HintSet \/ G_SrcEnd \/ G_End
 
 -----------------------------------------------------------------------------
@@ -1086,6 +1108,10 @@ ClientStep(p) ==
 FlushStep(f) == F_Lock(f) \/ F_Snap(f) \/ F_Write(f) \/ F_Detach(f) \/ F_End(f)
               \/ (pc[f] = "f_enter" /\ F_Enter(f))
 CloseStep == CL_Pick \/ CL_Ctab \/ CL_Hints \/ CL_RmTree \/ CL_Tree \/ Exit
+
+NonGCStep  == (\E p \in Clients : ClientStep(p)) \/ (\E f \in FlushProcs \ {"gc"} : FlushStep(f)) \/ CloseStep
+GCProcStep == GCStep \/ FlushStep("gc")
+OthersBusy == \E p \in Procs \ {"gc"} : pc[p] \notin {"idle", "spawned"}
 
 \* every non-start step of every process
 Continue == (\E p \in Clients : ClientStep(p)) \/ (\E f \in FlushProcs : FlushStep(f)) \/ CloseStep \/ GCStep
